@@ -150,7 +150,28 @@ func NewConfig(addr string, routes Routes, opts ...ConfigOption) (*Config, error
 		opt(c)
 	}
 
+	// Reject route sets that http.ServeMux would refuse (duplicate, conflicting or malformed
+	// patterns) here, as an error, instead of panicking later in getMux during Run() or Reload().
+	if err := validateRoutePatterns(c.Routes); err != nil {
+		return nil, err
+	}
+
 	return c, nil
+}
+
+// validateRoutePatterns registers the route patterns, in order, on a scratch ServeMux.
+// ServeMux.Handle panics on an invalid or conflicting pattern; the panic is turned into an error.
+func validateRoutePatterns(routes Routes) (err error) {
+	defer func() {
+		if r := recover(); r != nil {
+			err = fmt.Errorf("invalid routes: %v", r)
+		}
+	}()
+	mux := http.NewServeMux()
+	for i := range routes {
+		mux.Handle(routes[i].Path, http.NotFoundHandler())
+	}
+	return nil
 }
 
 // String returns a human-readable representation of the Config
